@@ -38,3 +38,25 @@ Qed.
 Lemma class_name_inj c c' : class_name c = class_name c' -> c = c'.
 Proof. destruct c, c'; cbn; intro H; try reflexivity; discriminate H. Qed.
 
+
+Lemma Ok_inj {A} (a b : A) : Ok a = Ok b -> a = b.
+Proof. intro H. inversion H. reflexivity. Qed.
+
+Lemma capri_only_that_class f l i c c' :
+  capri f l i = Ok (class_name c) -> is_class c' f l i -> c' = c.
+Proof.
+  intros H H'. rewrite capri_eq_spec in H. apply Ok_inj in H.
+  apply class_name_inj in H. subst c.
+  exact (is_class_unique _ _ _ _ _ H' (capri_spec_table f l i)).
+Qed.
+
+Lemma capri_monotone f l i f' l' i' c c' :
+  f <= f' -> l' <= l -> i' <= i ->
+  capri f l i = Ok (class_name c) -> capri f' l' i' = Ok (class_name c') ->
+  (class_rank c <= class_rank c')%nat.
+Proof.
+  intros Hf Hl Hi H H'.
+  rewrite capri_eq_spec in H, H'. apply Ok_inj in H. apply Ok_inj in H'.
+  apply class_name_inj in H, H'. subst c c'.
+  exact (capri_spec_monotone _ _ _ _ _ _ Hf Hl Hi).
+Qed.
